@@ -74,14 +74,14 @@ Theorem C15_every_shipped_name_resolves_and_validates :
 Proof. exact shipped_names_resolve. Qed.
 Print Assumptions C15_every_shipped_name_resolves_and_validates.
 
-(* (5) the same for a Licensing built from any index of the same format (any table Licensing() accepted) none of whose names
-   holds an operator word or a parenthesis: every name with words, in any case and spacing, is its entry's license. *)
+(* (5) the same for a Licensing built from any index of the same format (any table Licensing() accepted, whatever
+   its names hold): every name with words, in any case and spacing, is its entry's license. *)
 Theorem C15_names_of_a_built_table : forall O, is_space O 32%N = true ->
   (forall c, In c [97; 110; 100; 111; 114; 119; 105; 116; 104; 40; 41]%N -> is_space O c = false /\ lower_ch O c = [c]) ->
+  (is_wordch O 40%N = false /\ is_wordch O 41%N = false) ->
   (forall c, is_space O c = true -> lower_ch O c = [c]) ->
   (forall c, is_space O c = false -> lower_ch O c <> [] /\ nospace O (lower_ch O c)) ->
   forall raw T : list entry, new_licensing O raw = Ok T ->
-  (forall n v, In (n, v) (flat_map (entry_adds O) T) -> forall w, In w (lwords O n) -> is_keyword_str w = false) ->
   forall e n v text, In e T -> In (n, v) (entry_adds O e) -> lwords O n <> [] -> lwords O text = lwords O n ->
   parse O T false false false text = Ok (Some (Lit (Plain (entry_sym e)))) /\
   render (Lit (Plain (entry_sym e))) = ekey e /\
